@@ -96,6 +96,53 @@ Qed.
 Theorem loop_end_safe : forall s, reachable s -> loop_outlives_cleanup s = true -> step s LoopEnd <> Fault.
 Proof. intros s Hr Hc. apply step_safe; auto. Qed.
 
+(* ... and conversely (REVIEW_F F-5): on reachable states on which LoopEnd is not Rejected, loop_outlives_cleanup is EXACTLY
+   "LoopEnd does not fault".  So for this op the clause of `contract` is the negation of the fault condition (as H7 of C02), and
+   no_fault / step_safe say nothing about LoopEnd beyond it; the content is in drained_outlives, loop_end_no_leak and
+   destroy_then_loop_end_safe below (when the hypothesis holds, what it gives). *)
+Lemma forallb_false {A} (f : A -> bool) l : forallb f l = false -> exists x, In x l /\ f x = false.
+Proof.
+  induction l as [|x r IH]; cbn; [discriminate|]. destruct (f x) eqn:E; cbn; [|intros _; exists x; auto].
+  intros H. destruct (IH H) as (y & Hy & Fy). exists y. auto.
+Qed.
+
+Lemma gc_from_fault n : forall c s c' o, (c <= c' < c + n)%nat -> nth_error (conns s) c' = Some o ->
+  refs s c' = 0%nat -> conn_done o = false -> gc_from n c s = None.
+Proof.
+  induction n as [|n IH]; intros c s c' o L Ho Hr Hd; [lia|]. cbn [gc_from].
+  destruct (Nat.eq_dec c c') as [->|Ne].
+  - rewrite Ho, Hr. unfold conn_done in Hd. destruct (calive o); [|discriminate]. cbn in *.
+    destruct (cst o); try reflexivity. destruct (creg o); [reflexivity|discriminate].
+  - destruct (nth_error (conns s) c) as [o1|] eqn:H1; [|exfalso].
+    2:{ apply nth_error_None in H1. apply nth_error_lt in Ho. lia. }
+    destruct (calive o1 && (refs s c =? 0)%nat).
+    + destruct (cst o1); try reflexivity. destruct (creg o1); [reflexivity|].
+      unfold bind. rewrite (IH (S c) _ c' o); [reflexivity|lia| | |exact Hd].
+      * cbn. rewrite nth_error_upd_other; auto.
+      * unfold refs in *. cbn. rewrite nth_error_upd_other; auto.
+    + apply (IH (S c) s c' o); auto. lia.
+Qed.
+
+Theorem loop_outlives_exact : forall s, reachable s -> step_core s LoopEnd <> None ->
+  (loop_outlives_cleanup s = true <-> step s LoopEnd <> Fault).
+Proof.
+  intros s Hr Nr. split; [intros Hc; apply step_safe; auto|]. intros NF.
+  destruct (loop_outlives_cleanup s) eqn:Hc; [reflexivity|exfalso]. apply NF. clear NF.
+  destruct (reachable_Inv _ Hr) as (_ & _ & _ & [D C] & _ & _). destruct C as [_ Cde _ _ _ _ _ _ _ _ _ _ _].
+  unfold step. cbn [step_core] in *.
+  destruct (alive s || is_some (find_user (conns s) 0) || existsb is_addhack (pending s)) eqn:U; [exfalso; apply Nr; reflexivity|].
+  apply orb_false_elim in U. destruct U as [U _]. apply orb_false_elim in U. destruct U as [Al Us].
+  unfold loop_end. cbn [k_chan set_timers set_pending]. unfold loop_outlives_cleanup in Hc.
+  destruct (k_chan s) eqn:Ech; [reflexivity|]. cbn in Hc.
+  destruct (forallb_false _ _ Hc) as (o & Hi & Hd). apply In_nth_error in Hi. destruct Hi as (c' & Ho).
+  unfold finish, ret. cbn [bind]. unfold gc.
+  rewrite (gc_from_fault _ 0%nat _ c' o); [reflexivity| | | |exact Hd].
+  - cbn. apply nth_error_lt in Ho. lia.
+  - exact Ho.
+  - unfold refs. cbn. rewrite (Cde Al), Ho, D.
+    destruct (find_user (conns s) 0) eqn:F; [discriminate|]. rewrite (find_user_none _ _ F _ _ Ho). reflexivity.
+Qed.
+
 (* the hypothesis holds once everything queued has run: functor queue and timer queue drained, no user reference *)
 Theorem drained_outlives : forall s, reachable s -> alive s = false -> drained s = true ->
   (forall c o, nth_error (conns s) c = Some o -> cuser o = 0%nat) -> loop_outlives_cleanup s = true.
